@@ -42,6 +42,8 @@ type memConn struct {
 	heldUp      [][]byte
 	heldDown    [][]byte
 	upCount     int
+	curReq      []byte // request being handled (latency key of its reply)
+	pend        [][]byte
 	downCount   int
 }
 
@@ -186,18 +188,18 @@ func (n *Net) snapshot() []*memConn {
 	return append([]*memConn(nil), n.conns...)
 }
 
-// pump moves complete client->server frames into scheduled arrival events.
-func (n *Net) pump() bool {
+// collect moves complete client->server frames written so far into per-connection pending
+// batches; flush sends them. Frames written at one simulated instant come from different
+// goroutines of the client process (each waits for its reply before sending again), so their
+// relative order on the wire is a scheduling accident: flush canonicalises it (by content after
+// the xid) once no more activity appears at this instant.
+func (n *Net) collect() bool {
 	s := n.s
-	progressed := false
+	got := false
 	for _, c := range n.snapshot() {
 		if c.dead.Load() {
 			continue
 		}
-		// Frames written since the last quiescent point come from different goroutines of the
-		// client process (each waits for its reply before sending again), so their relative
-		// order on the wire is a scheduling accident: canonicalise it (by content after the xid).
-		var batch [][]byte
 		for {
 			c.mu.Lock()
 			if len(c.toServer) < 4 {
@@ -212,27 +214,15 @@ func (n *Net) pump() bool {
 			frame := append([]byte(nil), c.toServer[4:4+ln]...)
 			c.toServer = c.toServer[4+ln:]
 			c.mu.Unlock()
-			batch = append(batch, frame)
-		}
-		if len(batch) > 1 && c.shaken {
-			sort.SliceStable(batch, func(i, j int) bool {
-				a, b := batch[i], batch[j]
-				if len(a) >= 4 && len(b) >= 4 {
-					return string(a[4:]) < string(b[4:])
-				}
-				return len(a) < len(b)
-			})
-		}
-		for _, frame := range batch {
-			progressed = true
-			n.sendUp(c, frame)
+			c.pend = append(c.pend, frame)
+			got = true
 		}
 		c.mu.Lock()
 		closed := c.cliClose
 		c.mu.Unlock()
 		if closed && !c.cliCloseSeen {
 			c.cliCloseSeen = true
-			progressed = true
+			got = true
 			cc := c
 			at := s.now() + 300*time.Microsecond
 			if at <= cc.lastUp {
@@ -242,15 +232,46 @@ func (n *Net) pump() bool {
 			s.at(at, "zk-connclose", func() { s.zk.connClosed(cc) })
 		}
 	}
-	return progressed
+	return got
+}
+
+func (n *Net) flush() bool {
+	sent := false
+	for _, c := range n.snapshot() {
+		if len(c.pend) == 0 {
+			continue
+		}
+		batch := c.pend
+		c.pend = nil
+		if len(batch) > 1 && c.shaken {
+			sort.SliceStable(batch, func(i, j int) bool {
+				a, b := batch[i], batch[j]
+				if len(a) >= 4 && len(b) >= 4 {
+					return zkContentKey(a[4:]) < zkContentKey(b[4:])
+				}
+				return len(a) < len(b)
+			})
+		}
+		for _, frame := range batch {
+			n.sendUp(c, frame)
+			sent = true
+		}
+	}
+	return sent
 }
 
 func (n *Net) sendUp(c *memConn, frame []byte) {
 	s := n.s
 	lat := s.zkLatency(c, frame, true)
+	if s.verbose && os.Getenv("VERIF_DEBUG_STK") != "" && len(frame) >= 8 {
+		r := &jr{b: frame}
+		r.i32()
+		op := r.i32()
+		s.trace("ZKSEND conn=%d owner=%s n=%d %s lat=%v", c.id, c.owner, c.upCount, zkReqIdent(op, frame), lat)
+	}
 	at := s.now() + lat
-	if at <= c.lastUp {
-		at = c.lastUp + time.Nanosecond
+	if at < c.lastUp {
+		at = c.lastUp // FIFO per connection; equal instants keep their order by event sequence
 	}
 	c.lastUp = at
 	s.at(at, "zk-req", func() {
@@ -268,13 +289,16 @@ func (n *Net) sendUp(c *memConn, frame []byte) {
 	})
 }
 
+// sendDown: the reply's latency is keyed by the *request* it answers (c.curReq), not by the
+// reply bytes (which contain e.g. the data length of the lock node and with it the digit count
+// of this run process' OS pid).
 func (n *Net) sendDown(c *memConn, frame []byte) {
 	s := n.s
 	c.downCount++
-	lat := s.baseLatency(fmt.Sprintf("zkdown|%d|%d", c.id, c.downCount))
+	lat := s.zkLatency(c, c.curReq, false)
 	at := s.now() + lat
-	if at <= c.lastDown {
-		at = c.lastDown + time.Nanosecond
+	if at < c.lastDown {
+		at = c.lastDown
 	}
 	c.lastDown = at
 	s.at(at, "zk-resp", func() {
@@ -624,6 +648,7 @@ const (
 
 func (z *ZKServer) handle(c *memConn, req []byte) {
 	s := z.s
+	c.curReq = req
 	z.ops++
 	s.stats.ZKRequests++
 	if !c.shaken {
